@@ -693,6 +693,8 @@ class Engine:
     # ------------------------------------------------------------------ operands / rvalues
     def parse_const(s, frame, t):
         t = t.strip()
+        if frame is not None and frame.tparams and t in frame.tparams and isinstance(frame.tparams[t], int):
+            return frame.tparams[t], "usize"
         m = re.fullmatch(r"(-?\d+)_([iu](?:8|16|32|64|128|size))", t)
         if m:
             return int(m.group(1)), m.group(2)
@@ -920,7 +922,7 @@ class Engine:
                 body = t[k + 1:-1].strip()
                 for part in split_top(body) if body else []:
                     kk, v = part.split(":", 1)
-                    fields.append((kk.strip(), s.parse_operand(v)))
+                    fields.append((kk.strip().replace("r#", ""), s.parse_operand(v)))
                 return ("struct", t[:k].strip(), fields)
         if t.endswith(")"):
             k = _match_open(t, "(", ")")
@@ -1076,6 +1078,8 @@ class Engine:
     def call_fn(s, fn, args, tparams=None):
         s.stats.fns_executed[fn.name] = s.stats.fns_executed.get(fn.name, 0) + 1
         frame = Frame(fn)
+        if tparams:
+            frame.tparams = tparams
         if len(args) != len(fn.args):
             raise Unmodelled("arity mismatch calling %s: %d args for %d params" % (fn.name, len(args), len(fn.args)))
         for (a, _), v in zip(fn.args, args):
@@ -1336,6 +1340,10 @@ class Engine:
         return ("path", nm.split("::"), "", c)
 
     def dispatch(s, frame, callee, args):
+        if frame is not None and frame.tparams:
+            for k, v in frame.tparams.items():
+                if isinstance(v, int):
+                    callee = re.sub(r"\b%s\b" % re.escape(k), str(v), callee)
         pc = s.parse_callee(callee)
         if pc[0] == "trait":
             _, self_t, trait, tg, method, mg = pc
@@ -1359,7 +1367,19 @@ class Engine:
                 if c and len(c) == 1:
                     f = c[0]
         if f is not None:
-            return s.call_fn(f, args)
+            tp = None
+            mt = re.search(r"::<(.*)>$", callee.strip(), re.S)
+            if mt:
+                gens = mirparse.fn_generics(segs[-1])
+                vals = [v for v in split_top(mt.group(1)) if not v.strip().startswith("'")]
+                if gens and len(vals) == len(gens):
+                    tp = {}
+                    for (kind, gname), v in zip(gens, vals):
+                        v = v.strip()
+                        if frame is not None and v in frame.tparams:
+                            v = frame.tparams[v]
+                        tp[gname] = int(v) if kind == "const" and re.fullmatch(r"\d+", str(v)) else v
+            return s.call_fn(f, args, tp)
         # 2. model by "Type::method"
         return s.call_model(short2, args, callee, frame)
 
